@@ -275,3 +275,13 @@ def _(ctx):
     pref = (p.f['alpha_em'] / (24 * pi * cw2 * (1 - cw2)) * p.f['mm'] / p.f['mz']) ** 2
     yf2 = it.uf('fn_YF2', z3.simplify(xH), z3.simplify(cw2))
     ctx.prove('difference_structure', pre + s0.axioms + s1.axioms, z3real(r1) - z3real(r0) == pref * yf2 * p.f['zetal'] * c, tactics=('nlsat', 'default'))
+
+# ------------------------------------------------------------------------------------------------
+# The decoupling clause (heavy Higgs bosons at fixed quartic couplings become degenerate, their mass ratios enter the near-equal
+# branches) rests on those branches being the Taylor polynomials of the generic expressions: C11's series obligation for dxlog
+# (bosonic non-Yukawa part, TX) is re-registered here as a callee contract of C10.
+from gm2v.ob import REGISTRY as _REG, Obligation as _Ob
+from contracts import c11 as _c11
+for _o in _REG.get('C11', []):
+    if _o.oid == 'C11.series.dxlog':
+        _REG.setdefault('C10', []).append(_Ob('C10.callee.dxlog_series', _o.func, _o.fns, _o.tier, _o.backend, _o.doc, _o.replay, 'C10'))
